@@ -15,12 +15,12 @@ def run(ctx):
     g = ctx.tlc(MOD, "c17_sets/SortedInts_gen" + sfx, workers=1, outfile=gen, heap="8g")
     out = ctx.sub("drive")
     meta = ctx.drive(out, gen=gen, shards=16)
-    if meta.get("A_transitions_replayed", 0) != g["generated"] - 1:
+    if not meta.get("timed_out") and meta.get("A_transitions_replayed", 0) != g["generated"] - 1:
         raise vlib.Infra("replayed %s transitions, TLC generated %s" % (meta.get("A_transitions_replayed"), g["generated"] - 1))
     ctx.candidates += json.load(open(os.path.join(out, "replayA.json")))
     traces = vlib.glob_traces(out)
     bad, st = ctx.accept(ACC, ACC_CFG, traces)
-    if st.get("segs") != meta["segments"]:
+    if st.get("segs", 0) != meta["segments"]:
         raise vlib.Infra("acceptor saw %s segments, driver wrote %s" % (st.get("segs"), meta["segments"]))
     vlib.add_bad_segments(ctx, traces, bad)
     ctx.cov.update(
